@@ -27,8 +27,12 @@ def make(cfg):
     plugins = list(cfg.get("plugins") or [])
     if cfg.get("directives"):
         plugins.append(directive_plugin(cfg["directives"]))
-    return mistune.create_markdown(escape=cfg.get("escape", True), hard_wrap=cfg.get("hard_wrap", False),
-                                   renderer=renderer, plugins=plugins or None)
+    md = mistune.create_markdown(escape=cfg.get("escape", True), hard_wrap=cfg.get("hard_wrap", False),
+                                 renderer=renderer, plugins=plugins or None)
+    if cfg.get("toc_hook"):
+        from mistune.toc import add_toc_hook
+        add_toc_hook(md)
+    return md
 
 
 def C(name, **kw):
@@ -44,6 +48,7 @@ def named(which="quick"):
            C("all-speedup", plugins=PLUGINS),
            C("all-fenced", plugins=PLUGINS, directives="fenced"),
            C("all-rst", plugins=PLUGINS, directives="rst"),
+           C("all-tochook", plugins=PLUGINS, toc_hook=True),
            C("ast-core", renderer="ast"), C("ast-all", renderer="ast", plugins=PLUGINS),
            C("markdown-core", renderer="markdown"), C("rst-core", renderer="rst")]
     if which != "quick":
@@ -58,4 +63,5 @@ def random_cfg(rng, html_only=True, directives=True):
     pl = rng.sample(PLUGINS, k)
     return C("rand", escape=rng.random() < 0.6, hard_wrap=rng.random() < 0.3, plugins=pl,
              directives=(rng.choice([None, None, "fenced", "rst"]) if directives else None),
-             renderer="html" if html_only else rng.choice(["html", "html", "ast"]))
+             renderer="html" if html_only else rng.choice(["html", "html", "ast"]),
+             **({"toc_hook": True} if rng.random() < 0.2 else {}))
